@@ -39,6 +39,7 @@ type Scenario struct {
 	Epochs     []EpochSpec `json:"epochs"`
 	Triggers   []Trigger   `json:"triggers"` // Triggers[i] moves from epoch StartEpoch+i to the next
 	Faults     Faults      `json:"faults"`
+	NoChurn    bool        `json:"no_subscriber_churn,omitempty"`
 }
 
 type outcome struct {
@@ -51,6 +52,7 @@ type outcome struct {
 	hang       string
 	panicMsg   string
 	drainLost  bool
+	extra      []*fsub
 	skipped    bool
 	wall       time.Duration
 	hits       map[string]int
@@ -85,7 +87,8 @@ func buildChains(sc Scenario) ([][]*lib.Bundle, error) {
 }
 
 type syncListener struct {
-	rec *recorder
+	rec   *recorder
+	churn *churner
 }
 
 func (l *syncListener) OnSyncStepDone(op string, n uint64, took time.Duration) {
@@ -107,10 +110,22 @@ func (l *syncListener) OnSyncStepDone(op string, n uint64, took time.Duration) {
 	r.mu.Lock()
 	r.drains++
 	r.mu.Unlock()
+	if l.churn != nil {
+		// the sends of the current store are still to come: a subscriber added now sees them
+		l.churn.act(wantN, wantG)
+	}
 }
 
 func (l *syncListener) OnReorg(n uint64) {
 	l.rec.add(entry{Kind: eOnReorg, Num: n})
+	if l.churn != nil {
+		// between two reverts: every send so far is complete
+		r := l.rec
+		r.mu.Lock()
+		sentN, sentG := r.stores, r.reorgsOwed
+		r.mu.Unlock()
+		l.churn.act(sentN, sentG)
+	}
 }
 
 const convergedAfter = 20  // honest latest answers at the tip before the run is declared converged
@@ -206,7 +221,11 @@ func runScenario(sc Scenario) (out *outcome) {
 		}
 	}
 
-	s := junosync.New(bc, src, log.NewNopZapLogger(), 0, false, wdb).WithListener(&syncListener{rec})
+	lis := &syncListener{rec: rec}
+	s := junosync.New(bc, src, log.NewNopZapLogger(), 0, false, wdb).WithListener(lis)
+	if !sc.NoChurn {
+		lis.churn = &churner{r: lib.NewRNG(sc.Seed ^ 0xFEED), s: s, rec: rec, hits: map[string]int{}}
+	}
 	nh := s.SubscribeNewHeads()
 	rg := s.SubscribeReorg()
 	readersDone := make(chan struct{}, 2)
@@ -309,6 +328,23 @@ loop:
 	rg.Unsubscribe()
 	<-readersDone
 	<-readersDone
+	if lis.churn != nil {
+		rec.mu.Lock()
+		extras := append([]*fsub{}, rec.extra...)
+		rec.mu.Unlock()
+		for _, x := range extras {
+			x.unsub() // a second call for those that left earlier
+			select {
+			case <-x.done:
+			case <-time.After(5 * time.Second):
+				out.hang = "reader of " + x.name + " did not see its channel closed after Unsubscribe"
+			}
+		}
+		out.extra = extras
+		for k, v := range lis.churn.hits {
+			out.persisted[k] += v
+		}
+	}
 
 	src.mu.Lock()
 	out.hits = src.hits
